@@ -43,7 +43,7 @@ theorem lexString_escapeChar (c : Char) (hc : c.toNat ≤ 0xFFFF) (rest acc : Li
   have hof : Char.ofNat c.toNat = c := Char.ofNat_toNat c
   unfold jsonEscapeChar
   by_cases h34 : c.toNat = 34
-  · have : c = '"' := by rw [← hof, h34]
+  · have : c = '\x22' := by rw [← hof, h34]
     subst this
     rw [lexString.eq_def]
     simp
@@ -99,7 +99,7 @@ theorem lexString_escapeChar (c : Char) (hc : c.toNat ≤ 0xFFFF) (rest acc : Li
 
 /-- The quoted form of a string lexes back to the string (all code points up to U+FFFF). -/
 theorem lexString_jsonEscape (cs : List Char) (h : ∀ c ∈ cs, c.toNat ≤ 0xFFFF) (rest acc : List Char) :
-    lexString (jsonEscape cs ++ '"' :: rest) acc = some (acc.reverse ++ cs, rest) := by
+    lexString (jsonEscape cs ++ '\x22' :: rest) acc = some (acc.reverse ++ cs, rest) := by
   induction cs generalizing acc with
   | nil => rw [lexString.eq_def]; simp [jsonEscape]
   | cons c cs ih =>
@@ -110,7 +110,7 @@ theorem lexString_jsonEscape (cs : List Char) (h : ∀ c ∈ cs, c.toNat ≤ 0xF
     simp
 
 /-- F-10b witness: the raw code point U+1F600 is not a SourceCharacter. -/
-example : lexString (jsonEscape [Char.ofNat 0x1F600] ++ ['"']) [] = none := by decide
+example : lexString (jsonEscape [Char.ofNat 0x1F600] ++ ['\x22']) [] = none := by decide
 
 
 /-! ### Integers -/
@@ -319,7 +319,7 @@ theorem parseLit_int (fuel : Nat) (i : Int) (rest : List Char) (hr : Term rest) 
     rw [lexInt_toDigits true (m + 1) rest hr]
     rfl
 
-theorem jsonString_toList (s : String) : (jsonString s).toList = '"' :: (jsonEscape s.toList ++ ['"']) := by
+theorem jsonString_toList (s : String) : (jsonString s).toList = '\x22' :: (jsonEscape s.toList ++ ['\x22']) := by
   simp [jsonString]
 
 /-- The escaped body never starts with a quote. -/
@@ -339,13 +339,13 @@ theorem parseLit_str (fuel : Nat) (s : String) (rest : List Char) (hr : Term res
     (hs : ∀ c ∈ s.toList, c.toNat ≤ 0xFFFF) :
     parseLit (fuel + 1) ((jsonString s).toList ++ rest) = some (Lit.str s.toList, rest) := by
   rw [jsonString_toList, parseLit, List.cons_append, skipIgnored_cons_of_not (by decide)]
-  simp only [show ('"' : Char).toNat = 34 from rfl, show (34 : Nat) ≠ 91 from by decide,
+  simp only [show ('\x22' : Char).toNat = 34 from rfl, show (34 : Nat) ≠ 91 from by decide,
     show (34 : Nat) ≠ 123 from by decide, if_false, if_true]
   have hlex := lexString_jsonEscape s.toList hs rest []
-  have heq : jsonEscape s.toList ++ ['"'] ++ rest = jsonEscape s.toList ++ '"' :: rest := by simp
+  have heq : jsonEscape s.toList ++ ['\x22'] ++ rest = jsonEscape s.toList ++ '\x22' :: rest := by simp
   simp only [heq]
   -- not a block string
-  cases hbody : jsonEscape s.toList ++ '"' :: rest with
+  cases hbody : jsonEscape s.toList ++ '\x22' :: rest with
   | nil => simp at hbody
   | cons q1 tl =>
     cases tl with
@@ -546,7 +546,7 @@ theorem marshal_head {ι : Type} (d : SchemaDef ι) (hn : NamesOk d) (t : TRef) 
       show ("-" ++ toString (m + 1)).toList = _
       rw [String.toList_append]; rfl
   | float x => simp [covered] at hc
-  | str x => rw [marshal_str d t x s h, jsonString_toList]; exact ⟨'"', _, rfl, by decide⟩
+  | str x => rw [marshal_str d t x s h, jsonString_toList]; exact ⟨'\x22', _, rfl, by decide⟩
   | bool b =>
     rw [marshal_bool d t b s h]
     cases b
@@ -909,6 +909,100 @@ mutual
       · rename_i a ha
         simp [litOfFields, coerceFields, String.ofList_toList, ha, coerce_litOf d v a.type.ref h1,
           coerce_litOfFields d inputs fs h2]
+      · simp at h1
+end
+
+
+/-! ### Every value in normal form is printed -/
+
+/-- The built-in scalars the covered classes use are in the table, as scalars. -/
+def BuiltinsPresent {ι : Type} (d : SchemaDef ι) : Prop :=
+  ∀ n, n = "Int" ∨ n = "ID" ∨ n = "String" ∨ n = "Boolean" → ∃ td, d.lookup n = some td ∧ td.kind = .scalar
+
+mutual
+  theorem marshal_defined {ι : Type} (d : SchemaDef ι) (hb : BuiltinsPresent d) :
+      ∀ (v : Value) (t : TRef), nf d t v = true → ∃ s, marshalValue d t v = some s
+    | .null, t, _ => ⟨"null", by simp [marshalValue]⟩
+    | .int i, t, h => by
+      unfold nf at h
+      split at h
+      · rename_i n hs
+        simp only [Bool.or_eq_true, Bool.and_eq_true, beq_iff_eq] at h
+        have hn : n = "Int" ∨ n = "ID" ∨ n = "String" ∨ n = "Boolean" := by
+          rcases h with ⟨h, _⟩ | ⟨h, _⟩
+          · exact Or.inl h
+          · exact Or.inr (Or.inl h)
+        obtain ⟨td, hl, hk⟩ := hb n hn
+        exact ⟨toString i, by simp [marshalValue, hs, hl, hk]⟩
+      · simp at h
+    | .float x, t, h => by simp [nf] at h
+    | .str x, t, h => by
+      unfold nf at h
+      split at h
+      · rename_i n hs
+        simp only [Bool.or_eq_true, beq_iff_eq] at h
+        have hn : n = "Int" ∨ n = "ID" ∨ n = "String" ∨ n = "Boolean" := by
+          rcases h with h | h
+          · exact Or.inr (Or.inr (Or.inl h))
+          · exact Or.inr (Or.inl h)
+        obtain ⟨td, hl, hk⟩ := hb n hn
+        exact ⟨jsonString x, by simp [marshalValue, hs, hl, hk]⟩
+      · simp at h
+    | .bool b, t, h => by
+      unfold nf at h
+      split at h
+      · rename_i n hs
+        simp only [beq_iff_eq] at h
+        obtain ⟨td, hl, hk⟩ := hb n (Or.inr (Or.inr (Or.inr h)))
+        exact ⟨if b then "true" else "false", by simp [marshalValue, hs, hl, hk]⟩
+      · simp at h
+    | .enum name, t, h => by
+      unfold nf at h
+      split at h
+      · rename_i n hs
+        split at h
+        · rename_i td hl
+          simp only [Bool.and_eq_true] at h
+          exact ⟨name, by simp [marshalValue, hs, hl, h.1, h.2]⟩
+        · simp at h
+      · simp at h
+    | .list vs, t, h => by
+      unfold nf at h
+      split at h
+      · rename_i item hs
+        obtain ⟨parts, hp⟩ := marshalList_defined d hb vs item h
+        exact ⟨"[" ++ joinWith ", " parts ++ "]", by simp [marshalValue, hs, hp]⟩
+      · simp at h
+    | .obj fs, t, h => by
+      unfold nf at h
+      split at h
+      · rename_i n hs
+        split at h
+        · rename_i td hl
+          simp only [Bool.and_eq_true] at h
+          obtain ⟨parts, hp⟩ := marshalFields_defined d hb td.inputs fs h.1.2
+          exact ⟨"{" ++ joinWith ", " parts ++ "}", by simp [marshalValue, hs, hl, h.1.1.1, hp]⟩
+        · simp at h
+      · simp at h
+  theorem marshalList_defined {ι : Type} (d : SchemaDef ι) (hb : BuiltinsPresent d) :
+      ∀ (vs : List Value) (item : TRef), nfList d item vs = true → ∃ parts, marshalList d item vs = some parts
+    | [], _, _ => ⟨[], by simp [marshalList]⟩
+    | v :: vs, item, h => by
+      simp only [nfList, Bool.and_eq_true] at h
+      obtain ⟨s, hs⟩ := marshal_defined d hb v item h.1
+      obtain ⟨ps, hps⟩ := marshalList_defined d hb vs item h.2
+      exact ⟨s :: ps, by simp [marshalList, hs, hps]⟩
+  theorem marshalFields_defined {ι : Type} (d : SchemaDef ι) (hb : BuiltinsPresent d) (inputs : List (InputValueDef ι)) :
+      ∀ (fs : List (String × Value)), nfFields d inputs fs = true → ∃ parts, marshalFields d inputs fs = some parts
+    | [], _ => ⟨[], by simp [marshalFields]⟩
+    | (k, v) :: fs, h => by
+      simp only [nfFields, Bool.and_eq_true] at h
+      obtain ⟨h1, h2⟩ := h
+      split at h1
+      · rename_i a ha
+        obtain ⟨s, hs⟩ := marshal_defined d hb v a.type.ref h1
+        obtain ⟨ps, hps⟩ := marshalFields_defined d hb inputs fs h2
+        exact ⟨(k ++ ": " ++ s) :: ps, by simp [marshalFields, ha, hs, hps]⟩
       · simp at h1
 end
 
